@@ -129,42 +129,29 @@ func (u *Unit) quickCheck(o *Obl) bool {
 	defer os.Remove(f.Name())
 	f.WriteString(u.query(o, false, nil))
 	f.Close()
-	st, _, _ := runSolver(context.Background(), solvers[0], f.Name(), 3, 0)
+	// The budget follows the speed of the machine (houdiniBudget is derived from the time the package load took: 3 s on
+	// the development machine, more on a slower or loaded one). A fixed 3 s budget withdrew candidates on a slow fresh
+	// sandbox and turned into a false alarm on an unchanged tree; racing all solvers with long budgets instead made a
+	// check of a *changed* tree take minutes (every genuinely unprovable candidate cost the full budget).
+	st, _, _ := runSolver(context.Background(), solvers[0], f.Name(), houdiniBudget, 0)
 	if st == "unsat" {
 		return true
 	}
-	if st == "sat" {
-		return false
-	}
-	// undecided within the short budget. On a loaded or slow machine that says nothing about the candidate, and
-	// withdrawing a candidate that the later obligations need turns into a false alarm on an unchanged tree (seen in a
-	// fresh-sandbox run: 3 s were not enough for candidates that take 0.3 s here). So: all solvers, long budget, before
-	// the candidate is given up.
-	budget := 10
-	if st == "timeout" {
-		budget = 25
-	}
-	type r struct{ st string }
-	ctx, cancel := context.WithCancel(context.Background())
-	defer cancel()
-	ch := make(chan r, len(solvers))
-	for _, sp := range solvers {
-		go func(sp solverSpec) {
-			s, _, _ := runSolver(ctx, sp, f.Name(), budget, 0)
-			ch <- r{s}
-		}(sp)
-	}
-	for range solvers {
-		x := <-ch
-		if x.st == "unsat" {
-			return true
-		}
-		if x.st == "sat" {
-			return false
+	if st == "timeout" && houdiniBudget < 10 {
+		// one more look by the other two solvers with the same budget before giving the candidate up
+		for _, sp := range solvers[1:] {
+			if s2, _, _ := runSolver(context.Background(), sp, f.Name(), houdiniBudget, 0); s2 == "unsat" {
+				return true
+			} else if s2 == "sat" {
+				return false
+			}
 		}
 	}
 	return false
 }
+
+// houdiniBudget: seconds a loop-frame candidate may take; set by `check` from the package load time.
+var houdiniBudget = 3
 
 func (cx *Ctx) buildFuncUnitOnce(fn *ssa.Function, fc *FuncContract, blacklist map[string]bool) (u *Unit, err error) {
 	name := fn.String()
